@@ -75,6 +75,17 @@ def prelude_cases(tier, verif_seed):
 
 
 def gen_case(seed, tier, index=0):
+    case = _gen_case(seed, tier, index)
+    rng = Rng(seed, "c10-age")
+    if rng.chance(0.4):
+        # how old the files are when the history starts (the default is 2001); a command that writes a file gives it
+        # the simulated instant of that command
+        age = rng.pick(["1999-05-05T00:00:00", "2023-02-02T02:02:02", "2024-01-01T00:00:01", "2037-01-01T00:00:00"])
+        case["world"]["mtimes"] = {f["path"]: age for f in case["world"]["files"]}
+    return case
+
+
+def _gen_case(seed, tier, index=0):
     rng = Rng(seed, "c10")
     if rng.chance(0.35):
         return _gen_multi(seed, rng)
